@@ -142,6 +142,17 @@ def otherWrites : List (String × List String) := [
   ("ovni_mark_set", [])
 ]
 
+/-- Every path the runtime builds: (function, format string of its snprintf, the same as bytes). -/
+def pathFormats : List (String × String × List Nat) := [
+  ("mkdir_thread", "%s/thread.%d", [37, 115, 47, 116, 104, 114, 101, 97, 100, 46, 37, 100]),
+  ("create_trace_stream", "%s/thread.%d/stream.obs", [37, 115, 47, 116, 104, 114, 101, 97, 100, 46, 37, 100, 47, 115, 116, 114, 101, 97, 109, 46, 111, 98, 115]),
+  ("mkdir_proc", "%s/loom.%s/proc.%d/", [37, 115, 47, 108, 111, 111, 109, 46, 37, 115, 47, 112, 114, 111, 99, 46, 37, 100, 47]),
+  ("create_proc_dir", "%s/loom.%s", [37, 115, 47, 108, 111, 111, 109, 46, 37, 115]),
+  ("move_thdir_to_final", "%s/%s", [37, 115, 47, 37, 115]),
+  ("move_thdir_to_final", "%s/%s", [37, 115, 47, 37, 115]),
+  ("thread_metadata_store", "%s/thread.%d/stream.json", [37, 115, 47, 116, 104, 114, 101, 97, 100, 46, 37, 100, 47, 115, 116, 114, 101, 97, 109, 46, 106, 115, 111, 110])
+]
+
 /-- What the analysis could not resolve (indirect calls); must be empty. -/
 def unresolved : List String := []
 
